@@ -58,6 +58,13 @@ func execC07(r *kernel.Run, s TSpec) {
 		r.Probe("sequential-history")
 	}
 	checkTResultValidity(r, "C07", res)
+	checkRandomnessReuse(r, "C07", res)
+	r.Sample(map[string]any{"phases": s.Phases, "barrier": s.Barrier, "sequential": s.Sequential, "proofs": len(res.Proofs), "switches": res.Switches})
+}
+
+// checkRandomnessReuse is the all-pairs oracle: no commitment randomizer, randomised signature
+// element, non-revocation or range commitment occurs in two proofs of a run.
+func checkRandomnessReuse(r *kernel.Run, prop string, res *tResult) {
 	pk := res.Key.Pk
 	lm := pk.Params.Lm
 
@@ -71,7 +78,7 @@ func execC07(r *kernel.Run, s TSpec) {
 			if prev.list == list && kind == "rand:secretkey" {
 				return // proofs of one linked list share the secret-key randomizer by construction
 			}
-			r.Violate("C07:randomness-reused:"+stripDigits(kind), map[string]any{"kind": kind}, "%s of %s equals %s of %s", what, proof, prev.what, prev.proof)
+			r.Violate(prop+":randomness-reused:"+stripDigits(kind), map[string]any{"kind": kind}, "%s of %s equals %s of %s", what, proof, prev.what, prev.proof)
 			return
 		}
 		seen[k] = usedVal{what, proof, list}
@@ -98,7 +105,7 @@ func execC07(r *kernel.Run, s TSpec) {
 					m := exponentOf(hc.Led.Ms[i], lm)
 					rnd := new(big.Int).Sub(x.AResponses[i], new(big.Int).Mul(c, m))
 					if rnd.Sign() < 0 {
-						r.Violate("C07:response-not-randomizer-plus-c-times-value", nil, "%s attribute %d", id, i)
+						r.Violate(prop+":response-not-randomizer-plus-c-times-value", nil, "%s attribute %d", id, i)
 						continue
 					}
 					kind := fmt.Sprintf("rand:attr%d:cred%d", i, ci)
@@ -131,7 +138,6 @@ func execC07(r *kernel.Run, s TSpec) {
 			}
 		}
 	}
-	r.Sample(map[string]any{"phases": s.Phases, "barrier": s.Barrier, "sequential": s.Sequential, "proofs": len(res.Proofs), "switches": res.Switches})
 }
 
 func TestC07(t *testing.T) {
